@@ -506,3 +506,87 @@ pub fn get_best_move_until_stop(
 
     unreachable!()
 }
+
+/// Verification-only wrappers around the private search functions and the table entry.
+/// Compiled only with `--cfg daniel729_chess_verif`.
+#[cfg(daniel729_chess_verif)]
+pub mod verif_hooks {
+    use super::*;
+
+    pub const EXACT: u8 = 0;
+    pub const LOWER_BOUND: u8 = 1;
+    pub const UPPER_BOUND: u8 = 2;
+
+    pub fn entry(score: Score, pv: Option<Move>, depth: u8, flag: u8) -> TableEntry {
+        TableEntry {
+            score,
+            pv,
+            depth,
+            flag: match flag {
+                EXACT => NodeType::Exact,
+                LOWER_BOUND => NodeType::LowerBound,
+                _ => NodeType::UpperBound,
+            },
+        }
+    }
+
+    pub fn entry_parts(entry: &TableEntry) -> (Score, Option<Move>, u8, u8) {
+        (
+            entry.score,
+            entry.pv,
+            entry.depth,
+            match entry.flag {
+                NodeType::Exact => EXACT,
+                NodeType::LowerBound => LOWER_BOUND,
+                NodeType::UpperBound => UPPER_BOUND,
+            },
+        )
+    }
+
+    pub fn move_score(
+        _move: Move,
+        pv_move: Option<Move>,
+        killer_move: Option<Move>,
+        history: &[u16; 64 * 12],
+    ) -> u32 {
+        super::move_score(_move, pv_move, killer_move, history)
+    }
+
+    pub fn quiescence_search(game: &mut Game, alpha: Score, beta: Score, real_depth: u8) -> Score {
+        super::quiescence_search(game, alpha, beta, real_depth)
+    }
+
+    pub fn get_best_move_score_depth_1(
+        game: &mut Game,
+        alpha: Score,
+        beta: Score,
+        real_depth: u8,
+    ) -> Score {
+        super::get_best_move_score_depth_1(game, alpha, beta, real_depth)
+    }
+
+    #[allow(clippy::too_many_arguments)]
+    pub fn get_best_move_score(
+        game: &mut Game,
+        table: &mut TranspositionTable,
+        continue_running: &AtomicBool,
+        remaining_depth: u8,
+        real_depth: u8,
+        alpha: Score,
+        beta: Score,
+        killer_moves: &mut [Option<Move>],
+        history: &mut [u16; 64 * 12],
+    ) -> Option<Score> {
+        super::get_best_move_score(
+            game,
+            table,
+            continue_running,
+            remaining_depth,
+            real_depth,
+            alpha,
+            beta,
+            killer_moves,
+            history,
+        )
+    }
+}
